@@ -1190,6 +1190,93 @@ def exhaustive_small(ctx):
     return n
 
 
+def aliasing_cases(rng):
+    """Every place where the tape or a rule could key a dict/set by a (hash-consed) term gets its aliasing
+    case: the same object twice as operand of one node, twice among the parts of a Cat, shared as a
+    sub-term by two parents, inside a Cat and elsewhere.  Random sizes/data, both semirings, all modes."""
+    t, o = 0, 1                       # the concatenated / reduced variable and a second one
+    out = []
+    for sr in ("add-mul", "logaddexp-add"):
+        for opt in (None, "tape", "lazy"):
+            n = rng.choice([1, 2, 3])
+            m = rng.choice([1, 2, 3])
+            k = rng.choice([1, 2, 3])
+            x = ("acc", 0, [])
+            y = ("acc", 1, [])
+            w = ("acc", 2, [])
+
+            def mk(expr, axes, sz):
+                leaves = {lid: dict(axes=ax, data=gen_data(rng, tuple(s_ for _, s_ in ax))) for lid, ax in axes.items()}
+                full = dict({0: 1, 1: 1, 2: 1, 3: 1}, **sz)
+                for ax in axes.values():
+                    for nm, s_ in ax:
+                        full.setdefault(nm, s_)
+                return dict(sz=full, leaves=leaves, expr=expr, sr=sr, opt=opt)
+
+            same = {0: [(t, n), (o, m)], 1: [(t, n), (o, m)], 2: [(t, n), (o, m)]}
+            szs = {t: n, o: m}
+            # the same operand twice in one Binary; a shared Binary / Reduce / Subs node under two parents
+            out.append(mk(("sum", [t, o], ("mul", x, x)), {0: same[0]}, szs))
+            out.append(mk(("sum", [t, o], ("add", x, x)), {0: same[0]}, szs))
+            out.append(mk(("sum", [t], ("mul", ("mul", x, x), y)), {0: same[0], 1: same[1]}, szs))
+            out.append(mk(("sum", [t, o], ("add", ("mul", x, y), ("mul", x, y))), {0: same[0], 1: same[1]}, szs))
+            out.append(mk(("sum", [t, o], ("mul", ("mul", x, y), ("mul", x, y))), {0: same[0], 1: same[1]}, szs))
+            out.append(mk(("sum", [o], ("mul", ("add", x, y), ("add", x, y))), {0: same[0], 1: same[1]}, szs))
+            if opt is None:
+                s_ = ("sum", [t], ("mul", x, y))
+                out.append(mk(("sum", [o], ("mul", s_, s_)), {0: same[0], 1: same[1]}, szs))
+                out.append(mk(("sum", [o], ("add", s_, s_)), {0: same[0], 1: same[1]}, szs))
+                pl = ("prod", [t], x)
+                c = mk(("sum", [o], ("mul", pl, pl)), {0: same[0]}, szs)
+                c["leaves"][0]["data"] = gen_data(rng, (n, m), nonzero=True)
+                out.append(c)
+            r_ = ("acc", 0, [(4, ("var", t))])
+            out.append(mk(("sum", [t], ("mul", ("mul", r_, r_), ("acc", 1, []))), {0: [(4, n)], 1: [(t, n)]}, {t: n}))
+            out.append(mk(("sum", [t], ("add", r_, r_)), {0: [(4, n)]}, {t: n}))
+            # Cat with a repeated part: adjacent, non-adjacent, all the same; other factor mentions t
+            for parts, sizes in (([0, 0], [n, n]), ([0, 1, 0], [n, k, n]), ([0, 0, 1], [n, n, k]),
+                                 ([1, 0, 0], [k, n, n]), ([0, 0, 0], [n, n, n]), ([0, 1, 0, 1], [n, k, n, k])):
+                tot = sum(sizes)
+                if tot > 9:
+                    continue
+                axes = {lid: [(t, sz_), (o, m)] for lid, sz_ in zip(parts, sizes)}
+                axes[2] = [(t, tot), (o, m)]
+                cat = ("cat", t, parts)
+                out.append(mk(("sum", [t, o], ("mul", cat, w)), axes, {t: tot, o: m}))
+                out.append(mk(("sum", [t], ("mul", cat, w)), axes, {t: tot, o: m}))
+                out.append(mk(("sum", [t, o], cat), {l: a for l, a in axes.items() if l != 2}, {t: tot, o: m}))
+                # the same leaf in two Cats, and inside a Cat and (through a slice / a number) elsewhere
+                out.append(mk(("sum", [t, o], ("mul", cat, ("cat", t, list(reversed(parts))))),
+                              {l: a for l, a in axes.items() if l != 2}, {t: tot, o: m}))
+                out.append(mk(("sum", [t, o], ("mul", ("mul", cat, w), ("acc", 0, [(t, ("const", 0))]))),
+                              axes, {t: tot, o: m}))
+                if n <= 3:
+                    # x[t := 0 + 1*u] with u a variable of size n
+                    axes3 = dict(axes)
+                    out.append(mk(("sum", [t, o, 3], ("mul", ("mul", cat, w), ("acc", 0, [(t, ("var", 3))]))),
+                                  axes3, {t: tot, o: m, 3: n}))
+    return out
+
+
+def aliasing_block(ctx):
+    have_driver = ctx.driver.available()
+    n = 0
+    for c in aliasing_cases(ctx.rng):
+        try:
+            if violated(c):
+                ctx.count("alias:skipped-" + ",".join(sorted(violated(c))))
+                continue
+        except (KeyError, IndexError):
+            ctx.count("alias:skipped-ill-formed")
+            continue
+        count_shape(ctx, c, "alias")
+        res = check_case(ctx, c, use_driver=have_driver, label="alias")
+        ctx.count(f"alias:{res['status']}")
+        n += 1
+        ctx.case(nontrivial_key=shape_key(c) if res["status"] == "ok" else None)
+    return n
+
+
 def correspond(ctx):
     ctx.rule = ("random sum-product expressions: 1-5 leaf occurrences (leaves may repeat) over 4 variables of sizes 1-3, "
                 "leaves read directly or through Subs (renaming / Slice / Number / injective index Tensor, private or "
@@ -1197,11 +1284,17 @@ def correspond(ctx):
                 "and product-reductions over random subsets at random depths; any subset of the remaining variables "
                 "reduced at the root; semirings (add,mul) exact and (logaddexp,add) via exp with rtol 1e-9; driven by "
                 "forward_backward, by apply_optimizer under the tape, and by apply_optimizer under reflect. The clean "
-                "stream satisfies the hypotheses `Good` of adjoint_sound; six dedicated streams violate exactly one. "
+                "stream satisfies the hypotheses `Good` of adjoint_sound; seven dedicated streams violate exactly one. "
+                "Cat parts are drawn WITH repetition (the same Tensor twice, adjacent or not, sizes 1-3) and may also "
+                "occur elsewhere in the term (second Cat, or through Subs); an aliasing block builds every "
+                "same-object-twice shape (x⊗x, x⊕x, shared Binary/Reduce/Subs node under two parents, Cat(x,x), "
+                "Cat(x,y,x), …) in both semirings and all three modes. "
                 "Non-trivial = >= 2 leaf occurrences, at least one reduction, implementation returned a value; "
                 "distinct by full content (term, sizes, data, semiring, mode).")
     have_driver = ctx.driver.available()
     exhaustive_small(ctx)
+    for _ in range(1 if ctx.tier == "quick" else 6):
+        aliasing_block(ctx)
     n = 700 if ctx.tier == "quick" else 12000
     for _ in range(n):
         c = gen_case(ctx.rng, ctx.tier, stream="clean")
